@@ -21,7 +21,7 @@ struct IlHarness : HarnessBase {
 	} w;
 	std::vector<int> ref[2];
 	IlHarness(int n_) : n(n_) {}
-	const char *prop() const { return "C13"; }
+	const char *prop() const { return wanted_prop() == "C16" ? "C16" : "C13"; }   // C16 runs this harness too: a crash, sanitizer report or assertion then counts for it
 	IList &L(int a) { return *reinterpret_cast<IList *>(w.lists[a]); }
 	LNode &node(int i) { return reinterpret_cast<LNode *>(w.nodes)[i]; }
 	void reset() {
